@@ -110,7 +110,7 @@ fn u_alphabet() -> Vec<Action> {
 }
 
 fn u_alphabet_base() -> Vec<Action> {
-    let keep = ["DF11 CA5", "DF4 31000ft", "DF4 9000ft", "DF5 4521", "DF5 1000", "TC4 EIN45F cat3", "TC4 RYR9AB cat5", "TC4 EIN45F cat5", "TC11 even p1", "TC11 odd p1", "TC11 even p2", "TC11 odd p2", "TC6 surface", "TC19 v1", "TC19 v2", "TC19 st3", "TC29", "TC31 v2"];
+    let keep = ["DF11 CA5", "DF4 31000ft", "DF4 9000ft", "DF5 4521", "DF5 1000", "TC4 EIN45F cat3", "TC4 RYR9AB cat5", "TC4 EIN45F cat5", "TC11 even p1", "TC11 odd p1", "TC11 even p2", "TC11 odd p2", "TC6 surface", "TC19 v1", "TC19 v2", "TC19 st2 supersonic", "TC19 st3", "TC29", "TC31 v2"];
     rowmodel::row_alphabet(2).into_iter().filter(|a| a.name.starts_with("tick") || keep.iter().any(|k| a.name.split_once(':').is_some_and(|(_, n)| n == *k))).collect()
 }
 
